@@ -402,8 +402,27 @@ def strat_fast(draw):
             "tol": 10.0 ** (-draw(st.integers(4, 10))), "srand": draw(st.integers(0, 2 ** 31 - 1))}
 
 
+def _stopping_heuristic_only(spec):
+    """True iff the fast assembler reproduces the matrix within the bound once its two early-stopping heuristics are
+    switched off (skipcount / tolcount huge): the violation is then the early stop of the cross approximation, not a wrong
+    matrix generator, reordering or band structure (those stay wrong however long the iteration runs)."""
+    from pyiga import assemble
+    kvs = tuple(gk.pyiga_kv(k) for k in spec["kvs"])
+    geo, gref = gg.build_geometry(spec["geo"])
+    which = spec["which"]
+    exact = getattr(assemble, which)(kvs, geo).toarray()
+    ctypes.CDLL(None).srand(int(spec["srand"]))
+    A = getattr(assemble, which + "_fast")(kvs, geo, tol=spec["tol"], maxiter=2000, skipcount=20000, tolcount=10 ** 6, verbose=0).toarray()
+    bound = 10.0 * spec["tol"] * max(1.0, float(np.max(np.abs(exact))))
+    return A.shape == exact.shape and float(np.max(np.abs(A - exact))) <= bound
+
+
 def _known_skip(spec, viol):
-    return viol.oracle == "fast_assembler_accuracy" and viol.detail.get("stop_reason") == "skipcount"
+    return viol.oracle == "fast_assembler_accuracy" and viol.detail.get("stop_reason") == "skipcount" and _stopping_heuristic_only(spec)
+
+
+def _known_tolcount(spec, viol):
+    return viol.oracle == "fast_assembler_accuracy" and viol.detail.get("stop_reason") == "tolerance" and _stopping_heuristic_only(spec)
 
 
 SUBCHECKS = [
@@ -419,4 +438,4 @@ SUBCHECKS = [
         rule="mass_fast / stiffness_fast vs standard assembly: entrywise error <= 10*tol*max(1, max|A|)"),
 ]
 SHARED_CACHE = True
-KNOWN = {"fast_assemble_skipcount_heuristic": _known_skip}
+KNOWN = {"fast_assemble_skipcount_heuristic": _known_skip, "fast_assemble_tolcount_heuristic": _known_tolcount}
